@@ -2,6 +2,7 @@ import Props.C02
 import Props.C13
 import Proofs.JoinConv
 import Proofs.Converge
+import Proofs.Round
 /-!
 # C03 — Gossip converges
 
@@ -549,5 +550,55 @@ example : ∃ sr V, (runRev (c03Sched ++ c03Hist)).net.nodes.find "n2" = some sr
   · rw [h3]; simp [own, c03N0, AMap.find]
   · rw [h4]; simp [own, c03N0, AMap.find, compactKey]
   · rw [h4]; simp [own, c03N0, AMap.find, compactKey]
+
+/-! ## Whom a gossip round talks to (`Gossip.gossipRound`, `pkg/gossip/gossip.go`)
+
+The convergence theorems above take "the pulls happen" as their schedule.  The code's part of
+that schedule is peer selection: one uniformly drawn live peer and one uniformly drawn unreachable
+peer per round (`nodes[rand.Int() % len(nodes)]`; the draws are the parameters `r₁ r₂`). -/
+
+/-- A round sends exactly one digest request to a live peer if there is any, and one to an
+unreachable peer if there is any; every target is a remembered remote node, and a node that has
+left is targeted only while it is (also) flagged unreachable. -/
+theorem C03_round_targets (s : CState) (r₁ r₂ : Nat) :
+    (roundTargets s r₁ r₂).length =
+      (if liveNodes s = [] then 0 else 1) + (if unreachableNodes s = [] then 0 else 1) ∧
+    ∀ n ∈ roundTargets s r₁ r₂, n ∈ s.nodes.vals ∧ n.id ≠ s.localId ∧ (n.left = true → n.unreachable = true) := by
+  refine ⟨length_roundTargets s r₁ r₂, ?_⟩
+  intro n hn
+  rcases mem_roundTargets.mp hn with h | h
+  · obtain ⟨h1, h2, _, h4⟩ := mem_liveNodes.mp (pickNode_mem h)
+    exact ⟨h1, h2, fun hl => by rw [h4] at hl; cases hl⟩
+  · obtain ⟨h1, h2, h3⟩ := mem_unreachableNodes.mp (pickNode_mem h)
+    exact ⟨h1, h2, fun _ => h3⟩
+
+/-- **No live peer is excluded by the selection**: for every live peer there is a value of the
+first draw (its index; likewise every number congruent to it modulo the number of live peers)
+for which the round contacts it, whatever the second draw is.  With a uniform `rand.Int()` every
+live peer is therefore contacted with probability `1 / #live` per round: the fairness the
+convergence theorems assume is the scheduler's, not a restriction of the selection. -/
+theorem C03_round_fair (s : CState) (n : NodeSt) (h : n ∈ liveNodes s) :
+    ∃ i, i < (liveNodes s).length ∧ ∀ r₁ r₂, r₁ % (liveNodes s).length = i → n ∈ roundTargets s r₁ r₂ := by
+  obtain ⟨i, hi, hp⟩ := pickNode_onto h
+  refine ⟨i, hi, fun r₁ r₂ hr => mem_roundTargets.mpr (Or.inl ?_)⟩
+  rw [← pickNode_mod, hr]; exact hp
+
+/-- **Unreachable peers keep being probed**: a node flagged unreachable (two healthy nodes that
+suspect each other, say) is still contacted - by the second draw - so that it can be heard from
+again (C11: "restored if it is heard from again"). -/
+theorem C03_round_probes_unreachable (s : CState) (n : NodeSt) (h : n ∈ unreachableNodes s) :
+    ∃ j, j < (unreachableNodes s).length ∧
+      ∀ r₁ r₂, r₂ % (unreachableNodes s).length = j → n ∈ roundTargets s r₁ r₂ := by
+  obtain ⟨j, hj, hp⟩ := pickNode_onto h
+  refine ⟨j, hj, fun r₁ r₂ hr => mem_roundTargets.mpr (Or.inr ?_)⟩
+  rw [← pickNode_mod, hr]; exact hp
+
+/-- non-vacuity: three remote nodes, one of them unreachable - the round contacts one of the two
+live ones (both draws occur) and the unreachable one -/
+example :
+    let s := (updateLiveness (applyDigest (init "n" "a")
+      [⟨"x", "ax", 0, false⟩, ⟨"y", "ay", 0, false⟩, ⟨"z", "az", 0, false⟩]).1 (fun id => id = "y") 7).1
+    (roundTargets s 0 0).map (·.id) = ["z", "y"] ∧ (roundTargets s 1 5).map (·.id) = ["x", "y"] := by
+  decide
 
 end Piko
